@@ -39,7 +39,7 @@ from .onion import EphemeralOnionService
 from .onion import FilesystemAuthenticatedOnionService
 from .onion import EphemeralAuthenticatedOnionService
 from .onion import AuthStealth  # , AuthBasic
-from .torconfig import _endpoint_from_socksport_line, _socksport_address
+from .torconfig import _endpoint_from_socksport_line, _socksport_address, _socksport_usable
 from .util import SingleObserver, _Version
 
 
@@ -1005,7 +1005,7 @@ def _create_socks_endpoint(reactor, control_protocol, socks_config=None):
     # initial value. We don't care about those, but do need to strip
     # them.
     socks_lines = list(socks_ports)  # exactly as Tor reported them
-    socks_ports = [_socksport_address(port) for port in socks_ports]
+    socks_ports = [_socksport_address(port) for port in socks_ports if _socksport_usable(port)]
 
     # could check platform? but why would you have unix ports on a
     # platform that doesn't?
